@@ -222,7 +222,9 @@ def build(tier):
                 spec, cfg, conns = make_session(r, framer, dgram)
                 for order in interleavings([len(c) for c in conns], cap, r):
                     res = {}
-                    with watchdog("C17", {"framer": framer, "ctx": spec, "order": list(order)}):
+                    with watchdog("C17", {"framer": framer, "ctx": spec, "cfg": cfg, "dgram": dgram, "order": list(order),
+                                          "conns": [[c[0].hex() for c in ch] for ch in conns],
+                                          "done": [[[f.hex() for f in c[1]] for c in ch] for ch in conns]}):
                         for fe in fes:
                             res[fe] = (run_dgram if dgram else run_interleaved)(fe, framer, spec, cfg, conns, order)
                         ser = run_serial(fes[0], framer, spec, cfg, conns, order)
@@ -354,9 +356,22 @@ def replay_finding(f):
     return None
 
 
+def feed_script(desc):
+    """re-run one recorded session (child process, watchdog replays)"""
+    conns = [[(bytes.fromhex(c), [bytes.fromhex(f) for f in d]) for c, d in zip(ch, dn)]
+             for ch, dn in zip(desc["conns"], desc["done"])]
+    fes = DGRAM if desc["dgram"] else STREAM
+    for fe in fes:
+        (run_dgram if desc["dgram"] else run_interleaved)(fe, desc["framer"], desc["ctx"], desc["cfg"], conns, desc["order"])
+    run_serial(fes[0], desc["framer"], desc["ctx"], desc["cfg"], conns, desc["order"])
+
+
 def replay_case(suite, desc):
     import json
     print(json.dumps(desc)[:3000])
+    if suite == "watchdog":
+        from props.c12 import replay_hang
+        return replay_hang("c17", desc)
     if "conns" not in desc:
         return True
     conns = [[(bytes.fromhex(c), [bytes.fromhex(f) for f in d]) for c, d in zip(ch, dn)]
